@@ -65,7 +65,9 @@ template <class T> static void run_T(Choice &c, Ctx &cx)
             long panel = sp_ienv(1), maxsuper = std::max(sp_ienv(3), sp_ienv(7)), rowblk = sp_ienv(4);
             long tail_true = (2 * panel + 2 + 3) * (long)P.m * (long)sizeof(int) + ((long)P.m * panel + std::max<long>(P.m, (maxsuper + rowblk) * panel)) * (long)sizeof(T) + 16;
             long est = 2 * std::max<long>(std::max<long>(need, (long)qo.info - n), (long)b.for_lu + tail_true) + 512;
-            switch (kind) { case 0: cf.lwork = est; break; case 1: cf.lwork = est + 4; break; case 2: cf.lwork = est + (long)(extra % 4096); break; case 3: cf.lwork = 10 * est; break; default: cf.lwork = 3 * est + (long)(extra % 64); }
+            switch (kind) { case 0: cf.lwork = est; break; case 1: cf.lwork = est + 4; break; case 2: cf.lwork = est + (long)(extra % 4096); break; case 3: cf.lwork = 10 * est; break;
+                           // a tight length: the measured requirement plus at most 1 KB (may fall short; when it suffices the head of the workspace ends close to the work arrays)
+                           default: cf.lwork = (long)b.for_lu + tail_true + 64 + (long)(extra % 1024); }
             if (cx.dump) cx.d(fmt("config %zu: %s ...", i, cf.str().c_str()));
             IsoResult r = factor_isolated<T>(P, cf, heapfill, true, o, 10);
             if (cx.dump) cx.d(fmt("config %zu: %s -> %s info=%lld expansions=%d digest=%016llx", i, cf.str().c_str(), r.status == IsoResult::OK ? "returned" : (r.status == IsoResult::HANG ? "HANG" : "CRASH"), o.info, o.expansions, (unsigned long long)o.digest));
